@@ -31,8 +31,8 @@ def build_linear(spec):
     return LinearConstraint(A, lb, ub)
 
 
-def build_nonlinear(ctx, j, spec):
-    fun = make_constraint_fun(ctx, j, spec)
+def build_nonlinear(ctx, j, spec, shared=False):
+    fun = make_constraint_fun(ctx, j, spec, shared=shared)
     form = spec.get("form", "nlc")
     if form == "dict":
         d = {"type": spec["type"], "fun": fun}
@@ -83,7 +83,14 @@ class Call:
                 cons.append((ls.get("pos", k), obj_))
         nlin = len(cons)
         for j, ns in enumerate(stmt.get("nonlinear") or []):
-            cons.append((ns.get("pos", nlin + j), build_nonlinear(ctx, j, ns)))
+            skey = ns.get("share")
+            if skey is not None and skey in shared:
+                cons.append((ns.get("pos", nlin + j), shared[skey]))
+            else:
+                obj_ = build_nonlinear(ctx, j, ns, shared=skey is not None)
+                if skey is not None:
+                    shared[skey] = obj_
+                cons.append((ns.get("pos", nlin + j), obj_))
         cons.sort(key=lambda t: t[0])
         cons = [c for _, c in cons]
         cform = stmt.get("constraints_form", "list")
